@@ -3,6 +3,7 @@ package hk
 import (
 	"encoding/json"
 	"fmt"
+	"io"
 	"os"
 	"sort"
 	"strings"
@@ -224,15 +225,25 @@ func RaceReport() string {
 	if base == "" {
 		return "(race log not captured)"
 	}
-	b, err := os.ReadFile(fmt.Sprintf("%s.%d", base, os.Getpid()))
+	f, err := os.Open(fmt.Sprintf("%s.%d", base, os.Getpid()))
 	if err != nil {
 		return "(race log unreadable: " + err.Error() + ")"
 	}
-	if raceLogOff > int64(len(b)) {
+	defer f.Close()
+	if fi, err := f.Stat(); err == nil && raceLogOff > fi.Size() {
 		raceLogOff = 0
 	}
-	s := string(b[raceLogOff:])
-	raceLogOff = int64(len(b))
+	// only what this execution appended (reports are not de-duplicated by the detector: the log grows with
+	// every schedule on which a race is reported)
+	if _, err := f.Seek(raceLogOff, io.SeekStart); err != nil {
+		return "(race log unreadable: " + err.Error() + ")"
+	}
+	b, err := io.ReadAll(f)
+	if err != nil {
+		return "(race log unreadable: " + err.Error() + ")"
+	}
+	raceLogOff += int64(len(b))
+	s := string(b)
 	// keep the first report, trimmed
 	if i := strings.Index(s, "WARNING: DATA RACE"); i >= 0 {
 		s = s[i:]
